@@ -784,7 +784,7 @@ impl Check for C17 {
         "C17"
     }
     fn plan(&self, tier: Tier) -> Plan {
-        Plan { cases: if tier == Tier::Quick { 500 } else { 15_000 }, max_len: 8192 }
+        Plan { cases: if tier == Tier::Quick { 3_000 } else { 40_000 }, max_len: 8192 }
     }
     fn rule(&self) -> String {
         "choice sequence -> JpegSpec: sequential (SOF0/SOF1, about 60 %) or progressive (SOF2, about 40 %) Huffman JPEG, 1 or 3 components, 4:4:4 / 4:2:0 / 4:2:2 / 4:4:0, any size incl. non-multiples of the MCU, several groups, two LF groups, and (progressive) one-component images of more than 2^14 / 2^15 blocks; 1-3 quantisation tables with 8/16-bit precision in one or several DQT; standard or generated Huffman tables defined up front or redefined per scan; sequential: interleaved / per-component / mixed scans; progressive: generated legal scan scripts (DC first scans interleaved or not with Al 0..2, DC refinement, AC first scans over generated bands with Al 0..3, AC refinement scans over single or merged bands, any legal order, sometimes truncated), end-of-band runs up to 32767 (EOB0..EOB14), runs cut early (reset points: every block, random, periodic), ZRL symbols with pending correction bits, redundant ZRL symbols before the end of band (extra zero runs) in first and refinement scans; restart intervals; JFIF / APPn / COM / Adobe / ICC (multi-chunk) / Exif / XMP segments, inter-marker bytes, padding-bit patterns, trailing bytes; coefficient blocks empty / sparse / dense / long zero runs, DC differences up to +-2047, many small negative odd AC values -> (a) the JPEG file written by jxlref::jpeg from the JPEG standard and read back by an independent reader (discarded unless the coefficients agree), (b) the transcoded container file: jbrd box + Exif/xml boxes (raw or brob) + jxlc/jxlp codestream (VarDCT, DCT8, YCbCr, RAW quantisation weights, neutral or integer chroma-from-luma, ICC in the codestream). Positive: status Available and reconstruct_jpeg == (a) byte for byte. Arrival: the file is fed in generated chunks, status queried after every step: never Invalid, never Unavailable-then-Available, never back from Available; whenever Available a reconstruction attempt must not panic, must not fail with an incomplete/not-found error (nor any other error on a valid file) and an Ok result must equal (a); after the last byte the result equals (a). Negative: the jbrd payload is truncated, bit-flipped, or re-serialised from a field-level mutated description (lengths, types, counts, indices, group terminators, marker list, progressive parameters, ...), boxes removed / doubled, foreign codestream, whole and chunked: Err or any reconstruction, never a panic. Non-trivial: >= 2 blocks with non-zero AC coefficients.".into()
